@@ -375,7 +375,10 @@ def run_check(prop: str, tier: str) -> int:
         results = pool.map(work, tasks, chunksize=1)
 
     baseline = json.load(open(BASELINE)) if os.path.exists(BASELINE) else {}
-    base_proved = set(baseline.get(prop, []))
+    # obligation names carry a path index and a line number, which shift when the code changes: compare by
+    # function + clause (on the pristine tree *every* obligation is proved, so the key was proved for all its paths)
+    norm = lambda nm: nm.split(":path#")[0]
+    base_proved = {norm(x) for x in baseline.get(prop, [])}
     base_sha = {tuple(k.split("|", 1)): h for k, h in (baseline.get("_sha", {}).get(prop, {}) or {}).items()}
     violations: List[Tuple[str, str, bool]] = []   # (obligation, replay path, has_input)
     undecided: List[str] = []
@@ -427,7 +430,7 @@ def run_check(prop: str, tier: str) -> int:
             fkey = (res["relpath"], res["qualname"])
             # the function (or something inlined into it) differs from the tree the baseline was recorded on
             changed = fkey in base_sha and base_sha[fkey] != combined_sha(repo, res)
-            failing = v["status"] in (solve.REFUTED, solve.CANDIDATE) or (v["name"] in base_proved and changed)
+            failing = v["status"] in (solve.REFUTED, solve.CANDIDATE) or (norm(v["name"]) in base_proved and changed)
             if not confirmed and failing and res["relpath"] != "<lemma>":
                 # refutation fallback: one bounded native search per function
                 if fkey not in search_cache:
@@ -447,7 +450,7 @@ def run_check(prop: str, tier: str) -> int:
             if confirmed:
                 path = write_replay(prop, confirmed[0])
                 violations.append((v["name"], path, True))
-            elif failing and v["name"] in base_proved:
+            elif failing and norm(v["name"]) in base_proved:
                 spec = reps[0] if reps else {"property": prop, "obligation": v["name"], "clause": v["text"],
                                              "function": f"{res['relpath']}:{res['qualname']}"}
                 spec["note"] = ("no-failing-input-found: obligation was PROVED on the pristine tree"
